@@ -55,6 +55,25 @@ CHECKS.update({
                  "; 'finite in log space' is a floating point statement checked only on the sampled inputs"),
     "C16": bounded("every region-graph algorithm over small argument spaces: independent validator, structured-decomposability flag "
                    "vs set definition, dump/load round trip, build_circuit with the three abstractions and with explicit factories"),
+    "C10": mixed("TorchPointerParameter's kernel contract (reads the current value of the target tensor slice, fold-pointwise) is a discharged "
+                 "obligation; 'no new learnable tensor' and 'relation holds after every in-place update' are a bounded stand-in over "
+                 "operator chains and update histories"),
+    "C15": ("other", "structural clauses (shape, columns filled from the variable's input layer, support) and the distributional clause are a "
+            "BOUNDED, seeded statistical stand-in: 20000 samples per circuit against exact probabilities with 6.5-sigma cell thresholds; no contract "
+            "within reach decides convergence of empirical frequencies; one recorded known finding (optimized Tucker layers refuse to sample)",
+            BOUNDED_NOTE + "; torch's random number generator and Categorical sampler are trusted; the statistical threshold admits a false alarm "
+            "probability < 1e-8 per run and is deterministic for a fixed VERIF_SEED", "bounded seeded statistical check against exact probabilities", "4/C15"),
+    "C17": bounded("values of the registry slice of every symbolic tensor parameter after compile and after resets against its own initialiser, "
+                   "for parameters folded together with differently initialised ones"),
+    "C18": bounded("random well-bracketed context histories (nested, sequentially re-used, exceptional exits) and compile/operator call histories: "
+                   "active context and operator registry restored, memoisation, bijection, operands-first order; the inductive per-method contracts "
+                   "planned in DESIGN.md 4/C18 were not built"),
+    "C19": ("other", "BOUNDED STAND-IN: save -> fresh re-initialised compile -> load_state_dict(strict) -> equal outputs for base and derived circuits "
+            "under the four flag settings; the decisive step (nn.Module serialisation) is an assumed contract of a dependency, so no proof is claimed",
+            BOUNDED_NOTE + "; torch.save/torch.load and nn.Module.state_dict/load_state_dict are trusted", "bounded native round-trip check", "4/C19"),
+    "C20": bounded("tensor-factorisation templates against explicit numpy contractions of their factor tensors (tensor-train: reference interpreter + "
+                   "TT-rank of every unfolding), PGM templates against per-variable tables and per-variable arguments, logic circuits (ordered "
+                   "decision formulas) against truth tables and model counts"),
     "C07": bounded("compiled conjugate(c) against the conjugate of the reference value (complex and real circuits)"),
 })
 
